@@ -322,9 +322,9 @@ def run(ctx):
         tasks[("probe", 0)] = ex.submit(worker_run, ctx, "probe", probe_ids, seeds[0], ["modules", "state"], 1)
         for k, sel in enumerate(seq_orders):
             tasks[("seq", k)] = ex.submit(worker_run, ctx, "seq%d" % k, sel, seeds[1 + k], ["modules", "state"], 1)
-        if thorough:
-            tasks[("tables", 0)] = ex.submit(worker_run, ctx, "tables0", [], 0, ["parser_tables"], 1)
-            tasks[("tables", 1)] = ex.submit(worker_run, ctx, "tables1", [], 3, ["parser_tables"], 1)
+        table_seeds = [0, 3, 4, 11] if thorough else [0, 3]
+        for ts in table_seeds:
+            tasks[("tables", ts)] = ex.submit(worker_run, ctx, "tables%d" % ts, [], ts, ["parser_tables"], 1)
         res = {k: f.result() for k, f in tasks.items()}
 
     base = res[("seed", seeds[0])]
@@ -384,13 +384,16 @@ def run(ctx):
                       found_input=True)
     ctx.obligation("hash seeds: lr1.Grammar(...).parser() on three small grammars gives one result under all %d seeds "
                    "(apart from a listed known finding)" % len(seeds), len(ctx.violations) == n_v0)
-    if thorough:
-        t0, t1 = res[("tables", 0)].get("expression_parser_sha"), res[("tables", 1)].get("expression_parser_sha")
-        ctx.obligation("hash seeds: generated expression parser tables identical under two seeds", t0 == t1 and t0 is not None)
-        if t0 != t1:
-            ctx.violation("hashseed-dependent-output:make_parser", "make_parser.build_expression_parser() tables differ between seeds 0 and 3",
-                          dict(kind="call", call="generate_cached_parser.as_py_source(make_parser.build_expression_parser())", sha=[t0, t1]),
-                          found_input=True)
+    tabs = {ts: (res[("tables", ts)].get("expression_parser_sha"), res[("tables", ts)].get("module_parser_sha")) for ts in table_seeds}
+    tab_same = len(set(tabs.values())) == 1 and None not in tabs[table_seeds[0]]
+    ctx.obligation("hash seeds: LR(1) tables generated by make_parser (expression and module grammar) identical under seeds %s" % table_seeds,
+                   tab_same)
+    for ts in table_seeds:
+        ctx.case(("tables", ts), nontrivial=True)
+    if not tab_same:
+        ctx.violation("hashseed-dependent-output:make_parser", "make_parser.build_*_parser() tables differ between hash seeds %s" % table_seeds,
+                      dict(kind="call", call="generate_cached_parser.as_py_source(make_parser.build_module_parser(), ...)",
+                           sha={str(k): v for k, v in tabs.items()}), found_input=True)
 
     # ---- (2) repetition in one process ---------------------------------------------
     rep_bad = []
